@@ -303,6 +303,7 @@ func cmdCheck(args []string) int {
 	rep.collect(runs, obls, bindingFailures, *verbose)
 	if *updateLock {
 		rep.writeLock()
+		v.writeLocalsLock()
 	} else if *only == "" {
 		rep.checkLock()
 	}
